@@ -271,7 +271,8 @@ class C12(runner.Check):
 		"threshold, bin size, eps, reverse_complement) scanned (leg 'sim') under 2-3 "
 		"simulated thread schedules (K, work distribution, interleaving) or (leg 'real') "
 		"by the compiled binary at several real thread counts x chunk sizes, as FASTA+MEME "
-		"files and as tensor+dict, dim 0/1, return_counts, and on the reverse-complemented "
+		"files (a quarter of them written in another, RC-symmetric alphabet order passed as "
+		"`alphabet`) and as tensor+dict, dim 0/1, return_counts, and on the reverse-complemented "
 		"sequences. Each result is compared with the reference scanner (set of windows, "
 		"fields, p-values) and with the other executions. Non-trivial: the expected hit "
 		"set is non-empty; distinct = distinct event-log digests.")
